@@ -307,3 +307,71 @@ Proof.
   - rewrite <- all_records_length. symmetry. eapply Forall2_len; eauto.
   - intros km Hin. apply in_map_iff in Hin. destruct Hin as [p [<- _]]. reflexivity.
 Qed.
+
+(* ---------------------------------------------------------------- header fields, spelled out *)
+Definition untargeted (rows : list (string * string * N)) (k : N) : bool :=
+  forallb (fun r => negb (N.eqb (snd r) k)) rows.
+
+Lemma last_mapped_untargeted rows k els : untargeted rows k = true -> last_mapped rows k els None = None.
+Proof.
+  intros H. induction els as [|e r IH]; [reflexivity|].
+  cbn [last_mapped]. destruct (conv_lookup rows (e_name e) (kind_tag (e_val e))) as [| |k0] eqn:E; try exact IH.
+  destruct (N.eqb k0 k) eqn:Ek; [|exact IH]. exfalso.
+  apply N.eqb_eq in Ek. subst k0. apply conv_lookup_mapped in E.
+  unfold untargeted in H. rewrite forallb_forall in H. specialize (H _ E). cbn [snd] in H.
+  now rewrite N.eqb_refl in H.
+Qed.
+
+(* when no element is mapped to the four header fields and they are distinct, every flow message
+   carries the IPFIX message's export time, sequence number, observation domain and address *)
+Lemma header_fields c m r ft fs fd fa :
+  cv_hdr c = (ft, fs, fd, fa) ->
+  untargeted (cv_rows c) ft = true -> untargeted (cv_rows c) fs = true ->
+  untargeted (cv_rows c) fd = true -> untargeted (cv_rows c) fa = true ->
+  NoDup [ft; fs; fd; fa] ->
+  expected_field c m r KU32 ft = PU (k_time m) /\ expected_field c m r KU32 fs = PU (k_seq m) /\
+  expected_field c m r KU32 fd = PU (k_dom m) /\ expected_field c m r KStr fa = PS (k_addr m).
+Proof.
+  intros Hh Ut Us Ud Ua Hnd. unfold expected_field, hdr_struct. rewrite Hh.
+  rewrite !last_mapped_untargeted by assumption.
+  inversion Hnd as [|? ? N1 Hnd1]; subst. inversion Hnd1 as [|? ? N2 Hnd2]; subst.
+  inversion Hnd2 as [|? ? N3 _]; subst. cbn [In] in N1, N2, N3.
+  assert (fa <> ft /\ fd <> ft /\ fs <> ft /\ fa <> fs /\ fd <> fs /\ fa <> fd) as [A [B [C [D [E F]]]]]
+    by (repeat split; intros ->; tauto).
+  unfold getf. cbn [assigned].
+  repeat split.
+  - rewrite (proj2 (N.eqb_neq fa ft) A), (proj2 (N.eqb_neq fd ft) B), (proj2 (N.eqb_neq fs ft) C), N.eqb_refl. reflexivity.
+  - rewrite (proj2 (N.eqb_neq fa fs) D), (proj2 (N.eqb_neq fd fs) E), N.eqb_refl. reflexivity.
+  - rewrite (proj2 (N.eqb_neq fa fd) F), N.eqb_refl. reflexivity.
+  - rewrite N.eqb_refl. reflexivity.
+Qed.
+
+Lemma header_fields_conv12 m r :
+  (expected_field conv1 m r KU32 1 = PU (k_time m) /\ expected_field conv1 m r KU32 2 = PU (k_seq m) /\
+   expected_field conv1 m r KU32 3 = PU (k_dom m) /\ expected_field conv1 m r KStr 33 = PS (k_addr m)) /\
+  (expected_field conv2 m r KU32 1 = PU (k_time m) /\ expected_field conv2 m r KU32 2 = PU (k_seq m) /\
+   expected_field conv2 m r KU32 3 = PU (k_dom m) /\ expected_field conv2 m r KStr 33 = PS (k_addr m)).
+Proof.
+  split; apply header_fields; try (vm_compute; reflexivity);
+    repeat constructor; cbn [In]; intros H; repeat (destruct H as [H|H]; try discriminate); exact H.
+Qed.
+
+(* a record's value reaches its field: the last element mapped to field k decides *)
+Lemma record_field c m r1 e r2 k kd :
+  conv_lookup (cv_rows c) (e_name e) (kind_tag (e_val e)) = Mapped k ->
+  forallb (fun e' => match conv_lookup (cv_rows c) (e_name e') (kind_tag (e_val e')) with
+                     | Mapped k' => negb (N.eqb k' k) | _ => true end) r2 = true ->
+  expected_field c m (r1 ++ e :: r2) kd k = elem_pval e.
+Proof.
+  intros He Hr2. unfold expected_field.
+  assert (H : forall cur, last_mapped (cv_rows c) k (r1 ++ e :: r2) cur = Some (elem_pval e)).
+  { induction r1 as [|x r1 IH]; intros cur.
+    - cbn [app last_mapped]. rewrite He, N.eqb_refl.
+      clear He. revert Hr2. generalize (Some (elem_pval e)) as cur'. induction r2 as [|y r2 IH2]; intros cur' Hr2; [reflexivity|].
+      cbn [forallb] in Hr2. apply andb_true_iff in Hr2. destruct Hr2 as [Hy Hr2].
+      cbn [last_mapped]. destruct (conv_lookup (cv_rows c) (e_name y) (kind_tag (e_val y))) as [| |k'];
+        try (apply IH2; exact Hr2).
+      apply negb_true_iff in Hy. rewrite Hy. apply IH2; exact Hr2.
+    - cbn [app last_mapped]. apply IH. }
+  now rewrite H.
+Qed.
